@@ -244,6 +244,19 @@ def run(tier):
             continue
         if got != want:
             ck.violation("private-name-captured-by-exported-item", "an exported constant / signature that uses a private name of its module is re-read in the importer's scope: the program prints `%s`, the single-file meaning is `%s`" % (got, want), src)
+    # the libraries built into the tool (`core:`, `vendor:`): a module that imports one of their files compiles when that
+    # file - or its directory - is named on the command line, in any order (main.rs gathers them under their scheme)
+    from . import c18
+    if c18.build_penne(ck):
+        import os, shutil, subprocess
+        d = os.path.join(ck.work, "builtin-libs"); shutil.rmtree(d, ignore_errors=True); os.makedirs(d)
+        open(os.path.join(d, "main.pn"), "w").write('import "core:text/char.pn";\nfn main() -> i32\n{\n\treturn: 0\n}\n')
+        open(os.path.join(d, "libc.pn"), "w").write('import "vendor:libc/stdlib.pn";\nfn main() -> i32\n{\n\treturn: 0\n}\n')
+        for argv in (["main.pn", "core:text/char.pn"], ["core:text/char.pn", "main.pn"], ["main.pn", "core:text"], ["libc.pn", "vendor:libc/stdlib.pn"], ["vendor:libc", "libc.pn"]):
+            p = subprocess.run([c18.PENNE, "emit", "--color=never"] + argv, cwd=d, capture_output=True, timeout=120)
+            if p.returncode != 0:
+                ck.violation("builtin-library-import-unresolved", "penne emit %s fails (exit %d) although the imported library file is named on the command line" % (" ".join(argv), p.returncode),
+                             "cwd %s\npenne emit %s\n%s" % (d, " ".join(argv), (p.stdout + p.stderr).decode(errors="replace")[-1500:]))
     rejected_priv = 0
     for cid, src in privacy:
         f = impl2.get(cid, ["missing"])
